@@ -32,6 +32,10 @@ def run(ctx):
         s["judge"] = JUDGE
         s["uar"] = ["start", "between", None][i % 3]
         out.append(s)
+    # until_all_ready() called by the consumer in the middle of a call, while workers retire and are replaced
+    for q, (nw, quota, n) in enumerate([(1, 1, 3), (2, 1, 4), (2, 2, 5)]):
+        out.append(dict(pool="factory", nw=nw, quota=quota, uar="during", judge=JUDGE, name="u%d" % q,
+                        calls=[dict(n=n, chunk=1, ordered=True), dict(n=2, chunk=1, ordered=q % 2 == 0)]))
     # fault injection: every worker x {begin, item 0, item 1}
     base = dict(pool="functor", nw=2, calls=[dict(n=3, chunk=1, ordered=True)])
     fbase = dict(pool="factory", nw=1, quota=2, calls=[dict(n=2, chunk=1, ordered=True), dict(n=2, chunk=1, ordered=True)])
